@@ -27,7 +27,7 @@ func c09IsOutNotifErr(err error, code uint8) bool {
 
 func Verif_C09_state_message_table() {
 	verifEngineOnly()
-	verifNote("full (state, message type) table for OpenSent/OpenConfirm/Established x {OPEN, UPDATE, NOTIFICATION, KEEPALIVE} followed by EOF; received NOTIFICATION code/subcode symbolic with data length 0..8; UPDATE body symbolic length 0..32; remote hold time >= 3 (hold time 0 sessions are C06); timers do not fire (C06)")
+	verifNote("full (state, message type) table for OpenSent/OpenConfirm/Established x {OPEN, UPDATE, NOTIFICATION, KEEPALIVE}, optionally with a KEEPALIVE pipelined right behind it, followed by EOF; received NOTIFICATION code/subcode symbolic with data length 0..8; UPDATE body symbolic length 0..32; remote hold time >= 3 (hold time 0 sessions are C06); timers do not fire (C06)")
 	state := verifChoose("state", 3)
 	typ := uint8(1 + verifChoose("type", 4))
 	cfg := symConfig()
@@ -46,6 +46,13 @@ func Verif_C09_state_message_table() {
 		body = append([]byte{ncode, nsub}, verifBuf("ndata", 0, 8)...)
 	}
 	conn := newSymConn("c", mkFrame(typ, body), 1) // frame, then EOF
+	// optionally another complete message pipelined right behind it (the reader may already hold it
+	// when the first one ends the session)
+	pipelined := verifChoose("pipelined-keepalive", 2) == 1
+	if pipelined {
+		conn.addFrame(keepAliveMessageType, nil)
+		verifDelayBound(2) // reader / FSM schedules matter here: all with at most 2 delays
+	}
 	pl := newMonPlugin()
 	p := mkPeer(cfg, pl)
 	var f *fsm
